@@ -113,7 +113,7 @@ func isRequestOpSlice(t types.Type) bool {
 }
 
 func checkC02(w *World, r *Report) {
-	r.Decides = "C02 is decided in its structural part only: (a) the operation list applied on the compare-true edge is the transaction's Success list and on the other edge the Failure list (through the handler's call site), the two applications exclude each other and the reported flag/result equals the compare outcome on each edge, for the write path, the read-only path and the table layer; (b) the predicates are evaluated before any operation of the branch and on the batch/snapshot the operations use; (c) from every 'predicate failed' edge of the compare helper (missing key, empty range, a key of the range or the key itself failing the comparison, a failed term of the conjunction) only `return false` is reachable, and the operator table compares the stored value (left) with the given one for each of the four operators; (d) every operation arm appends exactly one response per iteration; (e) the read-only path uses one snapshot for predicates and operations; (f) a transaction is classified read-only only if every operation of both lists is a range read, and only then is it served by the read path / locally on a follower; (g) every operation of the executed branch - and every command around the transaction in a sequence or apply call - is applied: no counted loop of the apply path stops early with success or skips elements (C01.i)."
+	r.Decides = "C02 is decided in its structural part only: (a) the operation list applied on the compare-true edge is the transaction's Success list and on the other edge the Failure list (through the handler's call site), the two applications exclude each other and the reported flag/result equals the compare outcome on each edge, for the write path, the read-only path and the table layer; (b) the predicates are evaluated before any operation of the branch and on the batch/snapshot the operations use; (c) from every 'predicate failed' edge of the compare helper (missing key, empty range, a key of the range or the key itself failing the comparison, a failed term of the conjunction) only `return false` is reachable, and the operator table compares the stored value (left) with the given one for each of the four operators; (d) every operation arm appends exactly one response per iteration; (e) the read-only path uses one snapshot for predicates and operations; (f) a transaction is classified read-only only if every operation of both lists is a range read, and only then is it served by the read path / locally on a follower; (g) every operation of the executed branch - and every command around the transaction in a sequence or apply call - is applied: no counted loop of the apply path stops early with success or skips elements (C01.i). Also: every operation list is walked in full (g) and the apply batch is mutated only with plain write operations (h)."
 	r.NotDecided = []string{"the values predicates and operations evaluate to", "isolation inside Pebble", "equality of the answers of the read-only and the write path"}
 	r.Assume = []string{"C01.a-d hold inside the transaction (same context and batch)", "bytes.Compare returns -1, 0 or 1"}
 	a := w.FsmAnchors()
@@ -135,6 +135,7 @@ func checkC02(w *World, r *Report) {
 	c02OneSnapshot(w, r, a, "C02.e", "e-one-snapshot")
 	c02Readonly(w, r, a, "C02.f", "f-readonly-classification")
 	applyLoopComplete(w, r, a, "C02.g", "g-every-operation-applied")
+	c01WriteKinds(w, r, a, "C02.h", "h-plain-write-operations")
 }
 
 // findCompareSplit finds, in fn, the call of the compare helper, its boolean result and the If on it.
